@@ -9,6 +9,9 @@ CASES = [
     ('non-number index leaves the array unchanged', 'a = [1,2]; { a set ["x", 5] } except__ { }; a', '[1,2]'),
     ('refused recursive element leaves the array as it was', 'a = [1]; { a set [5, a] } except__ { }; a', '[1]'),
     ('refused recursive element inside bounds restores the element', 'a = [1,2]; { a set [1, a] } except__ { }; a', '[1,2]'),
+    ('append adds the elements', 'a = [1]; a append [2,3]; a', '[1,2,3]'),
+    ('append of the array itself is refused, array as it was', 'a = [1]; { a append [a] } except__ { }; count a', '1'),
+    ('append of an array that contains the array is refused', 'a = [1]; b = [a]; { a append [b] } except__ { }; count a', '1'),
     ('a shared reference sees the change', 'a = [1]; b = a; a set [0, 4]; b', '[4]'),
 ]
 def search(sqfvm):
